@@ -52,6 +52,8 @@ class Encode(Harness):
             out.append(dict(enc=n, kind="array", lens=[1]))
             out.append(dict(enc=n, kind="array", lens=[3]))
             out.append(dict(enc=n, kind="ragged", lens=[2, 0, 1]))
+            # history: a caller obtained the alphabet / label list earlier and changed ITS OWN list in place; the encoding must be unaffected
+            out.append(dict(enc=n, kind="array", lens=[2], caller_edits_alphabet=True))
             if tier == "thorough":
                 out.append(dict(enc=n, kind="str", lens=[3]))
                 out.append(dict(enc=n, kind="str", lens=[4]))
@@ -81,9 +83,19 @@ class Encode(Harness):
             data = EncodedArray(ctx.arr(bs, "uint8"), BaseEncoding)
         else:
             data = EncodedRaggedArray(EncodedArray(ctx.arr(bs, "uint8"), BaseEncoding), list(skel["lens"]))
-        res = as_encoded_array(data, enc)
-        assert res.encoding == enc, "result encoding differs"
-        dec = enc.decode(res)
+        edited = []
+        if skel.get("caller_edits_alphabet"):
+            for getter in ("get_alphabet", "get_labels"):
+                lst = getattr(enc, getter)()
+                edited.append((lst, list(lst)))
+                lst.reverse(); lst.append("#")
+        try:
+            res = as_encoded_array(data, enc)
+            assert res.encoding == enc, "result encoding differs"
+            dec = enc.decode(res)
+        finally:
+            for lst, saved in edited:       # should the list be shared with the encoding, put it back for the other jobs of this worker
+                lst[:] = saved
         if kind in ("list", "ragged"):
             return dict(codes=ctx.lst(res.ravel().raw()), decoded=ctx.lst(dec.ravel().raw()), lens=[int(l) for l in res.lengths])
         return dict(codes=ctx.lst(res.raw()), decoded=ctx.lst(dec.raw()), lens=[len(res)])
